@@ -366,6 +366,128 @@ def leafless_not_required(ctx, rep, rule: str) -> None:
     rep.ob(rule, "flatten-folds-from-empty-dict", ok, fl.loc(), "flatten folds the children's entries with | starting from {} (a sub-dictionary without leaves contributes nothing)")
 
 
+def codec_semantics(ctx, rep, rule: str) -> None:
+    """flatten / unflatten interpreted on concrete nested dictionaries (string and integer keys, keys containing the separator,
+    quotes and brackets, leaves of every kind incl. a tensor without elements, depth up to 4, every sub-dictionary holding a
+    leaf): distinct key paths give distinct flat keys, every leaf is emitted as the same object, and unflatten(flatten(d)) has
+    exactly d's nesting, key types and leaf objects; a sub-dictionary without leaves contributes nothing."""
+    from types import SimpleNamespace
+
+    from ..guards import MISSING, Interp, Raised, Returned, Unsupported, stdlib_resolver
+
+    repo = ctx.repo
+    m = repo.modules[CKPT_MOD]
+
+    class Leaf:
+        def __init__(self, name, n=1):
+            self.name, self._n = name, n
+
+        def numel(self):
+            return self._n
+
+        nelement = numel
+
+        def dim(self):
+            return 1
+
+        shape = property(lambda self: (self._n,))
+
+        def __repr__(self):
+            return f"<tensor {self.name}>"
+
+    torch_ns = SimpleNamespace(Tensor=Leaf)
+    res = stdlib_resolver(repo, m, lambda nm: torch_ns if nm == "torch" else (Leaf if nm == "Tensor" else MISSING))
+
+    def hook(it, c):
+        f = c.func
+        if isinstance(f, ast.Attribute) and f.attr in ("numel", "nelement", "dim") and not c.args:
+            b = it.ev(f.value)
+            if isinstance(b, Leaf):
+                return getattr(b, f.attr)()
+        return MISSING
+
+    def call(name, arg):
+        fi = m.functions[name]
+        body = [s_ for s_ in fi.node.body if not (isinstance(s_, ast.Expr) and isinstance(s_.value, ast.Constant))]
+        try:
+            Interp({fi.params[0]: arg}, resolve_name=res, call_hook=hook).run(body, lambda e: ast.unparse(e))
+        except Returned as r:
+            return r.value
+        except Raised as r:
+            return f"raise {r.exc_name}"
+        return None
+
+    def leaves(d, path=()):
+        for k, v in d.items():
+            if isinstance(v, dict):
+                yield from leaves(v, path + (k,))
+            else:
+                yield path + (k,), v
+
+    def same(a, b):
+        if isinstance(a, dict) and isinstance(b, dict):
+            return list(a.keys()) == list(b.keys()) and all(type(x) is type(y) for x, y in zip(a.keys(), b.keys())) and all(same(a[k], b[k]) for k in a)
+        return a is b
+
+    def pruned(d):
+        out = {}
+        for k, v in d.items():
+            if isinstance(v, dict):
+                p = pruned(v)
+                if p:
+                    out[k] = p
+            else:
+                out[k] = v
+        return out
+
+    L = lambda nm, n=1: Leaf(nm, n)
+    cases = [
+        {"a": L("t1")},
+        {"a": {"b": L("t1"), 3: L("t2")}, "c": L("empty", 0)},
+        {1: {"1": L("x")}, "1": {1: L("y")}},
+        {"a/b": L("p"), "a": {"b": L("q")}},
+        {'k"q': {"[0]": L("r"), "]": {"x.y": L("s", 0)}}, "a.b": {"c": L("u")}, "a": {"b.c": L("v")}},
+        {"w": {"x": {"y": {"z": L("deep")}}, "x2": L("m")}, 0: {0: {0: L("n")}}},
+        {"block_0": {"factor_matrices": {0: L("f0"), 1: L("f1", 0)}, "step": L("st")}, "block_1": {}},
+        {"only_empty_children": {"e": {}}, "t": L("t")},
+        {},
+    ]
+    bad = []
+    try:
+        for d in cases:
+            fl = call("flatten", d)
+            ls = list(leaves(d))
+            if not isinstance(fl, dict) or len(fl) != len(ls) or not all(any(v is w for w in fl.values()) for _, v in ls):
+                bad.append((d, f"flatten gives {fl!r}: {len(ls)} leaves need {len(ls)} distinct flat keys carrying the same objects"))
+                continue
+            back = call("unflatten", fl)
+            if not (isinstance(back, dict) and same(back, pruned(d))):
+                bad.append((d, f"unflatten(flatten(d)) = {back!r}"))
+    except Unsupported as u:
+        raise AnalysisError(f"{rule}: flatten / unflatten outside the interpreted sub-language: {u}") from u
+    rep.ob(rule, "codec-round-trip", not bad, m.functions["flatten"].loc(), f"{len(cases)} nested dictionaries (str / int keys that collide as text, separators, quotes, brackets, empty tensors, leaf-less sub-dictionaries): injective flat keys, leaves passed through as objects, exact round trip" + (f"; fails for {bad[0][0]!r}: {bad[0][1]}" if bad else ""), sample=True)
+
+
+def module_writer_reader_defaults(ctx, rep, rule: str) -> None:
+    """OptimizerModule.state_dict and load_state_dict are called without flags by the checkpoint utilities (extract /
+    update): a default load must expect exactly what a default save wrote — parameters the two share have equal defaults."""
+    repo = ctx.repo
+    om = repo.cls(OM)
+    sd, ld = repo.meth(om, "state_dict"), repo.meth(om, "load_state_dict")
+
+    def defaults(fi):
+        a = fi.node.args
+        names = [x.arg for x in a.posonlyargs + a.args]
+        d = dict(zip(names[len(names) - len(a.defaults):], a.defaults))
+        d.update({k.arg: v for k, v in zip(a.kwonlyargs, a.kw_defaults) if v is not None})
+        return {k: _norm(v) for k, v in d.items()}
+
+    dw, dr = defaults(sd), defaults(ld)
+    shared = sorted(set(dw) & set(dr))
+    bad = [k for k in shared if dw[k] != dr[k]]
+    rep.ob(rule, "module-writer-reader-defaults-agree", bool(shared) and not bad, ld.loc(), f"defaults of OptimizerModule.state_dict {dw} and load_state_dict {dr} on their shared flags {shared}" + (f" differ for {bad}: a default load looks for entries a default save never wrote" if bad else " agree"), sample=True)
+
+
 def state_entries_are_distinct(ctx, rep, rule: str) -> None:
     """In every OptimizerModule, two attributes never hold the same tensor object: `self.a = self.b = torch.zeros(1)` (or
     `self.a = self.b`) puts one tensor under two state-dict keys, and loading then copies the saved `a` into it and overwrites
@@ -401,6 +523,8 @@ def run(ctx, rep) -> None:
     rep.rule("C16.4", "state_dict walks self.__dict__ and recurses into every container kind")
     rep.rule("C16.5", "leaf-less sub-dictionaries are dropped by flatten and never required by the reader")
     rep.attempt("codec_pairing", codec_pairing, ctx, rep, "C16.1")
+    rep.attempt("codec_semantics", codec_semantics, ctx, rep, "C16.1")
+    rep.attempt("module_writer_reader_defaults", module_writer_reader_defaults, ctx, rep, "C16.2")
     rep.attempt("kind_tables", kind_tables, ctx, rep, "C16.2")
     rep.attempt("in_place_loading", in_place_loading, ctx, rep, "C16.3")
     rep.attempt("emission", emission, ctx, rep, "C16.4")
